@@ -1,6 +1,9 @@
 (* Executable driver for the C19 correspondence: the surrogate wrappers of Model/Surrogate.v
    with vectors and objective values as lists of binary64 floats (opaque to the wrapper,
-   compared bit for bit), the train() outcomes as a tape observed on the implementation. *)
+   compared bit for bit), the train() outcomes as a tape observed on the implementation.
+   A case is a session (Model/Surrogate.v): requests interleaved with read_from_data_store(),
+   user calls of train(), assignments of train_step / trained / problem.surrogate, over one or
+   more wrapper objects that start in explicitly given (not necessarily fresh) states. *)
 From Coq Require Import List ZArith Bool Floats.
 From Artap Require Export Base.Ord Base.FloatInst Model.Surrogate.
 Import ListNotations.
@@ -8,30 +11,60 @@ Local Open Scope nat_scope.
 
 Definition fvec := list float.
 
-Record c19_case := {
-  c9_pass : bool;                 (* true = SurrogateModelEval, false = a SurrogateModelPredict subclass *)
-  c9_ts : Z;                      (* train_step *)
-  c9_hook : bool;                 (* the problem defines `predict` *)
-  c9_trained0 : bool;             (* `trained` before the first request *)
-  c9_tape : list bool;            (* `trained` after the k-th train() call *)
-  c9_reqs : list (fvec * option fvec * fvec) }.   (* vector, hook answer, true value *)
+(* One wrapper object of the problem at the start of the case: its class, its train_step, and the
+   bookkeeping state observed on the real object (fresh, or a snapshot taken after a warm-up
+   segment: counters advanced, training set seeded, so |x_data| <> eval_counter is possible);
+   sl_tape = `trained` after the k-th train() call of this object from here on. *)
+Record c19_slot := {
+  sl_pass : bool;                 (* true = SurrogateModelEval, false = a SurrogateModelPredict subclass *)
+  sl_ts : Z;                      (* train_step *)
+  sl_trained : bool;
+  sl_ec : nat; sl_pc : nat;       (* eval_counter, predict_counter *)
+  sl_x : list fvec; sl_y : list fvec;
+  sl_tape : list bool }.
 
-(* returned values (None = the request raised), (trained, eval_counter, predict_counter),
-   x_data, y_data, train log, objective log, hook log *)
-Definition c19_obs : Type :=
-  list (option fvec) * (bool * nat * nat) * list fvec * list fvec *
+Record c19_case := {
+  c9_hook : bool;                 (* the problem defines `predict` *)
+  c9_cur : nat;                   (* which wrapper is problem.surrogate at the start *)
+  c9_slots : list c19_slot;
+  c9_events : list (event fvec fvec) }.
+
+(* per wrapper at the end: (trained, eval_counter, predict_counter), train_step, x_data, y_data,
+   train log, objective log, hook log *)
+Definition c19_slot_obs : Type :=
+  (bool * nat * nat) * Z * list fvec * list fvec *
   list (nat * nat * nat) * list (fvec * nat * nat) * list (fvec * nat * nat).
+
+(* returned values of the request events in order (None = the request raised), index of the wrapper
+   that is problem.surrogate at the end, the wrappers *)
+Definition c19_obs : Type := list (option fvec) * nat * list c19_slot_obs.
 
 Definition mkreq (t : fvec * option fvec * fvec) : req fvec fvec :=
   {| r_vec := fst (fst t); r_hook := snd (fst t); r_true := snd t |}.
+Definition ereq (t : fvec * option fvec * fvec) : event fvec fvec := EReq (mkreq t).
+
+Definition slot_wrapper (sl : c19_slot) : wrapper fvec fvec :=
+  {| w_pass := sl_pass sl; w_ts := sl_ts sl; w_tape := fun k => nth k (sl_tape sl) true;
+     w_st := {| trained := sl_trained sl; eval_counter := sl_ec sl; predict_counter := sl_pc sl;
+                x_data := sl_x sl; y_data := sl_y sl; train_log := []; obj_log := []; hook_log := [] |} |}.
+
+Definition wrapper_obs (w : wrapper fvec fvec) : c19_slot_obs :=
+  let s := w_st w in
+  ((trained s, eval_counter s, predict_counter s), w_ts w, x_data s, y_data s,
+   train_log s, obj_log s, hook_log s).
+
+Fixpoint returned (outs : list (option (kind * outcome fvec))) : list (option fvec) :=
+  match outs with
+  | [] => []
+  | None :: t => returned t
+  | Some (_, Ret v) :: t => Some v :: returned t
+  | Some (_, Raised) :: t => None :: returned t
+  end.
 
 Definition c19_run (c : c19_case) : c19_obs :=
-  let step := if c9_pass c then passthrough_evaluate
-              else predict_evaluate (c9_ts c) (c9_hook c) (fun k => nth k (c9_tape c) true) in
-  let '(s, outs) := run step (init (c9_trained0 c)) (map mkreq (c9_reqs c)) in
-  (map (fun ko => match snd ko with Ret v => Some v | Raised => None end) outs,
-   (trained s, eval_counter s, predict_counter s), x_data s, y_data s,
-   train_log s, obj_log s, hook_log s).
+  let '(ss, outs) := session_run (c9_hook c) {| cur := c9_cur c; slots := map slot_wrapper (c9_slots c) |}
+                                 (c9_events c) in
+  (returned outs, cur ss, map wrapper_obs (slots ss)).
 
 (* bit-exact equality of observations *)
 Fixpoint list_eqb {A : Type} (eqb : A -> A -> bool) (a b : list A) : bool :=
@@ -50,8 +83,13 @@ Definition vnn_eqb (a b : fvec * nat * nat) : bool :=
 Definition bnn_eqb (a b : bool * nat * nat) : bool :=
   Bool.eqb (fst (fst a)) (fst (fst b)) && Nat.eqb (snd (fst a)) (snd (fst b)) && Nat.eqb (snd a) (snd b).
 
-Definition c19_obs_eqb (a b : c19_obs) : bool :=
-  let '(r1, c1, x1, y1, t1, o1, h1) := a in
-  let '(r2, c2, x2, y2, t2, o2, h2) := b in
-  list_eqb (opt_eqb fvec_eqb) r1 r2 && bnn_eqb c1 c2 && list_eqb fvec_eqb x1 x2 &&
+Definition slot_obs_eqb (a b : c19_slot_obs) : bool :=
+  let '(c1, z1, x1, y1, t1, o1, h1) := a in
+  let '(c2, z2, x2, y2, t2, o2, h2) := b in
+  bnn_eqb c1 c2 && Z.eqb z1 z2 && list_eqb fvec_eqb x1 x2 &&
   list_eqb fvec_eqb y1 y2 && list_eqb nat3_eqb t1 t2 && list_eqb vnn_eqb o1 o2 && list_eqb vnn_eqb h1 h2.
+
+Definition c19_obs_eqb (a b : c19_obs) : bool :=
+  let '(r1, k1, w1) := a in
+  let '(r2, k2, w2) := b in
+  list_eqb (opt_eqb fvec_eqb) r1 r2 && Nat.eqb k1 k2 && list_eqb slot_obs_eqb w1 w2.
